@@ -25,6 +25,7 @@ type argSet struct {
 	memoOut []float64 // [N][nOut][T] flattened, from the first full execution
 	memoFin []float64
 	have    bool
+	first   *liveBuffers // arrays of the first execution (never scribbled): re-used as they are
 }
 
 type liveBuffers struct {
@@ -62,7 +63,7 @@ func scribble(b *liveBuffers, v float64) {
 
 // execArgs runs argument set a on obj (nil = fresh object); variant 0 full, 1 truncated at cut,
 // 2 tail after cut replaced.  Returns outputs [N*nOut*T'] and final states.
-func execArgs(a *argSet, obj sim.TimeSteppingModel, variant, cut int, tailSeed float64) (sim.TimeSteppingModel, *liveBuffers, []float64, []float64, int) {
+func execArgs(a *argSet, obj sim.TimeSteppingModel, variant, cut int, tailSeed float64, reuse bool) (sim.TimeSteppingModel, *liveBuffers, []float64, []float64, int) {
 	c := a.c
 	nIn, nOut := len(c.desc.Inputs), len(c.desc.Outputs)
 	T := c.T
@@ -83,8 +84,14 @@ func execArgs(a *argSet, obj sim.TimeSteppingModel, variant, cut int, tailSeed f
 		}
 	}
 	bufs := &liveBuffers{}
-	bufs.par = paramMatrix(c.CPar, c.cols)
-	bufs.in = mk3(c.CIn, c.I, nIn, T, iv)
+	if reuse && a.first != nil && variant == 0 {
+		// the caller passes the very same (unmodified by the caller) input and parameter
+		// arrays again
+		bufs.par, bufs.in = a.first.par, a.first.in
+	} else {
+		bufs.par = paramMatrix(c.CPar, c.cols)
+		bufs.in = mk3(c.CIn, c.I, nIn, T, iv)
+	}
 	sv := make([]float64, 0, c.N*a.width)
 	for i := 0; i < c.N; i++ {
 		sv = append(sv, c.stateRows[i]...)
@@ -175,12 +182,12 @@ func enginePure(rc *RunCtx) *Outcome {
 		return true
 	}
 
-	s := simrt.Run(rc.T, simrt.Config{}, rc.S, func() {
+	s := simrt.Run(rc.T, simrt.Config{DeepPct: 20}, rc.S, func() {
 		// pristine memo: every argument set once, on a fresh object
 		for ai, a := range sets {
-			_, b, out, fin, T := execArgs(a, nil, 0, 0, 0)
+			_, b, out, fin, T := execArgs(a, nil, 0, 0, 0, false)
 			check(a, ai, out, fin, 0, 0, T, "first execution")
-			prev = b
+			a.first = b
 		}
 		for op := 0; op < nOps && o.Class == ""; op++ {
 			ai := w.Choose(len(sets))
@@ -216,13 +223,13 @@ func enginePure(rc *RunCtx) *Outcome {
 				var outA, finA, outB, finB []float64
 				var TA, TB int
 				simrt.Go("pure:concurrent-a", func() {
-					_, _, outA, finA, TA = execArgs(a, obj, 0, 0, 0)
+					_, _, outA, finA, TA = execArgs(a, obj, 0, 0, 0, false)
 					simrt.Yield("pure:a<")
 					done <- 1
 					simrt.Yield("pure:a>")
 				})
 				simrt.Go("pure:concurrent-b", func() {
-					_, _, outB, finB, TB = execArgs(b, nil, 0, 0, 0)
+					_, _, outB, finB, TB = execArgs(b, nil, 0, 0, 0, false)
 					simrt.Yield("pure:b<")
 					done <- 2
 					simrt.Yield("pure:b>")
@@ -240,11 +247,18 @@ func enginePure(rc *RunCtx) *Outcome {
 				continue
 			}
 			opLog = append(opLog, fmt.Sprintf("run(%d:%s,%s,variant=%d,cut=%d)", ai, a.c.Model, how, variant, cut))
-			obj2, bufs, out, fin, T := execArgs(a, obj, variant, cut, float64(w.Choose(5)))
+			reuse := variant == 0 && w.Bool(35)
+			if reuse {
+				how += ", same input and parameter arrays as the first call"
+				o.probe("caller_reuses_input_and_parameter_arrays")
+			}
+			obj2, bufs, out, fin, T := execArgs(a, obj, variant, cut, float64(w.Choose(5)), reuse)
 			if obj == nil {
 				objects[a.c.Model] = append(objects[a.c.Model], obj2)
 			}
-			prev = bufs
+			if !reuse {
+				prev = bufs
+			}
 			if variant == 1 {
 				o.probe("input_truncated")
 			} else if variant == 2 {
